@@ -27,6 +27,15 @@ def run_job(job):
     """A job is a list of loads that share one data home; returns their events."""
     _COUNTER[0] += 1
     home = os.path.join(_ROOT, "h%d-%d" % (os.getpid(), _COUNTER[0]))
+    # every fifth data home lives on another file system than the system's temporary directory (when the machine has one):
+    # staging anywhere but next to the cache slot cannot be renamed into place there
+    import tempfile
+    try:
+        other_fs = os.path.isdir("/dev/shm") and os.access("/dev/shm", os.W_OK) and os.stat("/dev/shm").st_dev != os.stat(tempfile.gettempdir()).st_dev
+    except OSError:
+        other_fs = False
+    if other_fs and _COUNTER[0] % 5 == 0:
+        home = os.path.join("/dev/shm", "verif-c18-%d-%d" % (os.getpid(), _COUNTER[0]))
     fake_home = home + "-user"
     os.makedirs(home)
     os.makedirs(fake_home)
